@@ -569,11 +569,43 @@ class World:
                             "recoverable": False, "ncorrupt": 0, "summary": str(cr)})
         return None
 
-    def op_repair(self, kind, force, cr, midfault=""):
+    def op_repair(self, kind, force, cr, midfault="", midwrite=None):
         node = self.fresh_node(kind)
         before = self.disk()
         known = {header_id(d, self.fmt) for d in before.values()}
         del MAPLOG[:]
+        mw = {"phase": 0, "held": set(), "vid": 0}
+        if midwrite is not None:
+            # a second client overwrites the whole file between the repairer's survey / download and the arrival of the
+            # repairer's writes: the repairer's writes are held back on the wire, the other client's overwrite runs to its
+            # end, its version is registered and the new layout recorded, then the held writes are delivered
+            other = self.g.make_nodemaker().create_from_cap(self.node.get_uri())
+
+            def pol(grid):
+                if mw["phase"] == 0:
+                    idx = [i for i, p in enumerate(grid.pending) if p.methname == "slot_testv_and_readv_and_writev"]
+                    if idx and len(MAPLOG) >= 1:
+                        mw["held"] = {id(grid.pending[i]) for i in idx}
+                        mw["phase"] = 1
+                        self.ev_maps()
+                        other.overwrite(MutableData(midwrite)).addBoth(lambda r: mw.__setitem__("res", r))
+                if mw["phase"] == 1:
+                    if "res" in mw:
+                        mw["phase"] = 2
+                        from twisted.python.failure import Failure as _F
+                        if not isinstance(mw["res"], _F):
+                            mw["vid"] = self.register_published(midwrite)
+                            self.rescan()
+                        self.ev_layout(keepmaps=True)
+                    else:
+                        free = [i for i, p in enumerate(grid.pending) if id(p) not in mw["held"]]
+                        if free:
+                            return ("call", free[0], None)
+                        return ("timer",)
+                if not grid.pending:
+                    return ("timer",)
+                return ("call", 0, None)
+            self.g.policy = pol
         if midfault:
             # server `midfault` stops answering once the repairer has finished its survey (between the survey and the
             # download of the version it chose)
@@ -616,7 +648,10 @@ class World:
             del MAPLOG[:]
             if st2 == "ok":
                 post["content"] = self.contents.get(data, UNKNOWN_CONTENT)
-        self.events.append({"ev": "Repair", "node": kind, "force": force, "res": res, "what": what, "post": post, "midfault": midfault})
+        if midwrite is not None and mw["phase"] == 2:
+            del MAPLOG[:]          # (the other client's own surveys are not the repairer's)
+        self.events.append({"ev": "Repair", "node": kind, "force": force, "res": res, "what": what, "post": post, "midfault": midfault,
+                            "midwrite": mw["vid"]})
         return res
 
     def op_publish(self, kind, content):
@@ -1005,6 +1040,28 @@ def scen_c14_mid(g, fg, rng, idx, thorough):
     return w.trace("c14")
 
 
+def scen_c14_midwrite(g, fg, rng, idx, thorough):
+    """a file that needs repair (one share number is missing); while the repairer's writes are on the wire a second client
+    overwrites the whole file.  The repairer's writes meet the newer version: the repair fails (and the newer contents
+    stay), it never republishes what it had downloaded over them"""
+    w = new_world(g, fg, rng, 1)
+    newest = len(w.vers)
+    w.wipe()
+    order = list(w.order)
+    rng.shuffle(order)
+    for sh in range(w.n):
+        if sh != 1:
+            w.put(order[sh % len(order)], sh, newest, how="plain")
+    w.set_up([])
+    w.ev_layout()
+    kind = rng.choice(["w", "rw"])
+    cr = w.op_check(kind, False)
+    if cr is not None:
+        w.op_repair(kind, False, cr, midwrite=w.new_content())
+    w.op_read(rng.choice(["ro", "rw"]))
+    return w.trace("c14")
+
+
 def scen_c14_stale(g, fg, rng, idx, thorough):
     """check results that went stale: a verifying check finds one share damaged inside (its prefix is intact); before the
     repair runs, another writer's newer version lands on exactly that (server, share number) - fewer than k shares of it.
@@ -1114,10 +1171,13 @@ def main():
             cases = json.load(f)
         a.n = len(cases)
         a.servers = 4
+    a.n0 = a.n
+    if cases is None and a.family == "C14":
+        a.n += max(2, a.n // 12)          # repairs that race a second client's overwrite
     for i in range(a.n):
         rng = random.Random(rng0.randrange(10 ** 9))
         ns = a.servers or (rng.choice([4, 4, 5]) if a.family != "C11" else rng.choice([5, 6, 6, 7]))
-        late = cases is None and a.family == "C14" and rng.random() < 0.15
+        late = cases is None and a.family == "C14" and rng.random() < 0.15 and i < a.n0
         if late:
             ns = "late"
         if ns not in grids:
@@ -1143,6 +1203,8 @@ def main():
                 tr = scen_c14_mid(g, fg, rng, i, thorough)
             elif a.family == "C14" and rng.random() < 0.1:
                 tr = scen_c14_stale(g, fg, rng, i, thorough)
+            elif a.family == "C14" and i >= a.n0:
+                tr = scen_c14_midwrite(g, fg, rng, i, thorough)        # (the additional histories at the end of the run)
             else:
                 tr = SCENS[a.family](g, fg, rng, i, thorough)
         tr["consts"]["idx"] = i
